@@ -30,6 +30,9 @@ CoversOffsets(s) ==
   /\ {2 * w + b : w \in 0..(Planned(s, "word") - 1), b \in {0, 1}} = 0..(2 * (s.mlen \div 2) - 1)
   /\ \A kind \in {"trunc", "flip", "ff", "inc", "dec"} : Planned(s, kind) = s.mlen
   /\ \A v \in 1..NumValues : WordValue(v, s.len) \in 0..65535
+  \* the DICT plan gives every 5-byte operand every value class
+  /\ {<<d, v>> : d \in 1..s.ndict, v \in 0..(NumDictValues - 1)}
+       = {<<(k \div NumDictValues) + 1, k % NumDictValues>> : k \in 0..(Planned(s, "dict") - 1)}
   \* the cross-table plan pairs every glyph-id word with every value and every trigger
   /\ {<<w, v, t>> : w \in 1..s.ngid, v \in 1..NumGidValues, t \in 1..NumTriggers}
        = {<<(k \div (NumGidValues * NumTriggers)) + 1, ((k \div NumTriggers) % NumGidValues) + 1, (k % NumTriggers) + 1>> :
